@@ -4,7 +4,7 @@ From Bandit Require Import Base.PyStr.
 Import ListNotations.
 
 Inductive action :=
-| AExit (code : Z) | ASkip | APass | AReraise | ARaise (cls : pstr) | ALog | ALogReraiseIfDebug
+| AExit (code : Z) | ASkip (reason : pstr) | APass | AReraise | ARaise (cls : pstr) | ALog | ALogReraiseIfDebug
 | AAssign | AUnknown.
 Record handler := Handler { h_types : list pstr; h_action : action }.
 Record tryfact := TryFact {
@@ -15,7 +15,8 @@ Record funcfact := FuncFact { ff_tries : list tryfact; ff_calls : list pstr; ff_
 Definition action_eqb (a b : action) : bool :=
   match a, b with
   | AExit x, AExit y => Z.eqb x y
-  | ASkip, ASkip | APass, APass | AReraise, AReraise | ALog, ALog
+  | ASkip x, ASkip y => pstr_eqb x y
+  | APass, APass | AReraise, AReraise | ALog, ALog
   | ALogReraiseIfDebug, ALogReraiseIfDebug | AAssign, AAssign | AUnknown, AUnknown => true
   | ARaise x, ARaise y => pstr_eqb x y
   | _, _ => false
